@@ -144,6 +144,8 @@ fn run_construct(c: &Construct, obs: &mut Obs) -> CheckResult {
         let text = format!("{}/{}", s.ip(), s.len);
         ensure!(Prefix::from_str(&text).is_err(), "from_str accepted {}", text);
         ensure!(Prefix::from_str_relaxed(&text).is_err(), "from_str_relaxed accepted {}", text);
+        ensure!(serde_json::from_str::<Prefix>(&format!("\"{}\"", text)).is_err(), "Prefix deserialized from {}", text);
+        ensure!(serde_json::from_value::<Prefix>(json!(text)).is_err(), "Prefix deserialized from the JSON value {}", text);
         return Ok(());
     }
     obs.nontrivial();
@@ -185,6 +187,22 @@ fn run_construct(c: &Construct, obs: &mut Obs) -> CheckResult {
     let js = serde_json::to_string(&r).map_err(|e| Fail::new(e.to_string()))?;
     ensure!(js == format!("\"{}\"", text), "serde form {} != Display {}", js, text);
     ensure!(serde_json::from_str::<Prefix>(&js).ok() == Some(r), "serde round trip of {}", js);
+    ensure!(serde_json::from_value::<Prefix>(json!(text)).ok() == Some(r), "serde round trip of {} through a JSON value", js);
+    ensure!(serde_json::from_reader::<_, Prefix>(js.as_bytes()).ok() == Some(r), "serde round trip of {} through a reader", js);
+    // deserialisation is a strict constructor too: host bits must be zero
+    let raw_js = format!("\"{}\"", raw_text);
+    let de = serde_json::from_str::<Prefix>(&raw_js);
+    ensure!(de.is_ok() == expect_strict && (de.is_err() || de.as_ref().ok() == Some(&r)),
+        "Prefix deserialized from {}: {:?}, strict construction ok={}", raw_js, de.as_ref().ok(), expect_strict);
+    // conversion into the repository's block type keeps the address range
+    {
+        let b = rpki::repository::resources::IpBlock::from(r);
+        let shift = if s.v6 { 0 } else { 96 };
+        let lo = m.min() << shift;
+        let hi = (m.max() << shift) | if s.v6 { 0 } else { (1u128 << 96) - 1 };
+        ensure!(b.min().to_bits() == lo && b.max().to_bits() == hi,
+            "IpBlock::from({}) covers {:x}-{:x}, expected {:x}-{:x}", r, b.min().to_bits(), b.max().to_bits(), lo, hi);
+    }
 
     // max-len prefix
     let fam = s.fam_max();
